@@ -5,8 +5,8 @@ package client
 import (
 	"github.com/aws/aws-sdk-go-v2/aws"
 	"github.com/aws/aws-sdk-go-v2/service/dynamodb"
-	"github.com/truora/minidyn/interpreter"
 	"github.com/truora/minidyn/internal/nd"
+	"github.com/truora/minidyn/interpreter"
 	mtypes "github.com/truora/minidyn/types"
 )
 
